@@ -12,6 +12,17 @@ Proof.
   unfold rsel_ok. intros H Hi. rewrite forallb_forall in H. apply Nat.ltb_lt. auto.
 Qed.
 
+Lemma flat_map_map {B C D} (f : C -> list D) (g : B -> C) l :
+  flat_map f (map g l) = flat_map (fun x => f (g x)) l.
+Proof. induction l; simpl; congruence. Qed.
+
+Lemma flat_map_flat_map {B C D} (f : C -> list D) (g : B -> list C) l :
+  flat_map f (flat_map g l) = flat_map (fun x => flat_map f (g x)) l.
+Proof. induction l; simpl; [reflexivity|]. rewrite flat_map_app. congruence. Qed.
+
+Lemma chunk_0_all m d : length d = m -> chunk m 0 d = d.
+Proof. intros <-. unfold chunk. simpl. apply firstn_all. Qed.
+
 Lemma oslice_length sh : forall rs d,
   rs_ok sh rs = true -> length d = prodn sh ->
   length (oslice sh rs d) = prodn (spec_shape rs).
@@ -80,13 +91,6 @@ Proof.
       pose proof (compat_prod_le _ _ H2 H). nia.
 Qed.
 
-Lemma prodn_nonint rs :
-  prodn (map rcount (filter (fun r => negb (is_int r)) rs)) = prodn (spec_shape rs).
-Proof.
-  induction rs as [|r rs IH]; simpl; [reflexivity|].
-  destruct r; simpl; rewrite IH; unfold rcount; simpl; lia.
-Qed.
-
 Lemma assign_same_cells tsh ssh d :
   length d = prodn ssh -> prodn ssh = prodn tsh -> assign tsh ssh d = Some d.
 Proof.
@@ -97,17 +101,63 @@ Proof.
   - replace (length d =? prodn tsh) with true; [reflexivity|]. symmetry. apply Nat.eqb_eq. lia.
 Qed.
 
-(* the code path of a non-fancy variable equals the orthogonal selection whenever numpy keeps
-   the broadcast axis in place *)
-Lemma slice_var_partial sh rs d :
-  rs_ok sh rs = true -> length d = prodn sh -> dom_var rs = true ->
+(* ---- the per-axis selection loop ---- *)
+
+Lemma take_axis_length outer n inner idxs d :
+  length d = outer * (n * inner) -> (forall i, In i idxs -> i < n) ->
+  length (take_axis outer n inner idxs d) = outer * (length idxs * inner).
+Proof.
+  intros Hd Hi. unfold take_axis.
+  rewrite flat_map_length_const with (k := length idxs * inner); [now rewrite seq_length|].
+  intros o Ho. apply in_seq in Ho.
+  apply flat_map_length_const. intros i Hin. apply chunk_length.
+  rewrite chunk_length; [pose proof (Hi i Hin); nia|]. rewrite Hd. nia.
+Qed.
+
+(* after selecting the leading axes (product of their new lengths = outer) the loop continues
+   with the remaining axes under every outer index: that is the orthogonal selection *)
+Lemma seq_take_oslice sh : forall outer rs d,
+  rs_ok sh rs = true -> length d = outer * prodn sh ->
+  seq_take outer sh rs d = flat_map (fun o => oslice sh rs (chunk (prodn sh) o d)) (seq 0 outer).
+Proof.
+  induction sh as [|n sh IH]; intros outer [|r rs] d Hok Hd; simpl in Hok; try discriminate.
+  - simpl. symmetry. apply chunks_all. simpl in Hd. lia.
+  - apply andb_true_iff in Hok as [Hr Hok].
+    assert (Hin : forall i, In i (rindices r) -> i < n) by (intros i; apply rsel_ok_lt; exact Hr).
+    cbn [seq_take oslice prodn fold_right]. fold (prodn sh). set (m := prodn sh) in *.
+    assert (Hd' : length d = outer * (n * m)) by (simpl in Hd; exact Hd).
+    rewrite IH; [|exact Hok|].
+    2:{ rewrite take_axis_length by assumption. unfold rcount. lia. }
+    set (X := fun o i => chunk m i (chunk (n * m) o d)).
+    set (pcs := flat_map (fun o => map (X o) (rindices r)) (seq 0 outer)).
+    assert (Hflat : take_axis outer n m (rindices r) d = flat_map (fun x => x) pcs).
+    { unfold take_axis, pcs. rewrite flat_map_flat_map. apply flat_map_ext. intros o.
+      rewrite flat_map_map. reflexivity. }
+    assert (Hlen : length pcs = outer * rcount r).
+    { unfold pcs. rewrite flat_map_length_const with (k := rcount r); [now rewrite seq_length|].
+      intros o _. unfold rcount. apply map_length. }
+    assert (Hpc : forall x, In x pcs -> length x = m).
+    { intros x Hx. unfold pcs in Hx. apply in_flat_map in Hx as [o [Ho Hx]].
+      apply in_map_iff in Hx as [i [<- Hi]]. apply in_seq in Ho. unfold X.
+      apply chunk_length. rewrite chunk_length; [pose proof (Hin i Hi); nia|]. rewrite Hd'. nia. }
+    rewrite Hflat, <- Hlen.
+    rewrite flat_map_ext_in with (g := fun k => oslice sh rs (nth k pcs [])).
+    2:{ intros k Hk. apply in_seq in Hk. f_equal.
+        apply (chunk_flat_map_const (fun x : list A => x)); [exact Hpc|lia]. }
+    rewrite (flat_map_seq_nth (oslice sh rs) [] pcs).
+    unfold pcs. rewrite flat_map_flat_map. apply flat_map_ext. intros o.
+    rewrite flat_map_map. reflexivity.
+Qed.
+
+(* FULL: the repaired code path equals the orthogonal selection for every selector tuple *)
+Lemma slice_var sh rs d :
+  rs_ok sh rs = true -> length d = prodn sh ->
   impl_slice_var sh rs d (spec_shape rs) = Some (oslice sh rs d).
 Proof.
-  intros Hok Hd Hdom. unfold impl_slice_var, np_index, dom_var in *.
-  apply negb_true_iff in Hdom. rewrite Hdom.
-  apply assign_same_cells.
-  - rewrite oslice_length by assumption. symmetry. apply prodn_nonint.
-  - apply prodn_nonint.
+  intros Hok Hd. unfold impl_slice_var.
+  rewrite seq_take_oslice by (try assumption; lia). simpl. rewrite app_nil_r.
+  rewrite chunk_0_all by exact Hd.
+  apply assign_same_cells; [|reflexivity]. apply oslice_length; assumption.
 Qed.
 
 (* whatever numpy does with the axes, when the call succeeds the result has the target's size *)
@@ -132,14 +182,6 @@ Proof.
     { apply chunk_length. rewrite Hd. nia. }
     rewrite E. rewrite nth_chunk by exact L. split; [reflexivity|nia].
 Qed.
-
-Lemma flat_map_map {B C D} (f : C -> list D) (g : B -> C) l :
-  flat_map f (map g l) = flat_map (fun x => f (g x)) l.
-Proof. induction l; simpl; congruence. Qed.
-
-Lemma flat_map_flat_map {B C D} (f : C -> list D) (g : B -> list C) l :
-  flat_map f (flat_map g l) = flat_map (fun x => flat_map f (g x)) l.
-Proof. induction l; simpl; [reflexivity|]. rewrite flat_map_app. congruence. Qed.
 
 (* the selection is the list, in lexicographic (C) order of the per-axis index lists, of the
    single cells picked by each index tuple *)
@@ -196,50 +238,109 @@ Proof.
   destruct r; simpl; rewrite IH; unfold rcount; simpl; lia.
 Qed.
 
-Lemma chunk_0_all m d : length d = m -> chunk m 0 d = d.
-Proof. intros <-. unfold chunk. simpl. apply firstn_all. Qed.
-
-Lemma nints0_filters rs : nints rs = 0 ->
-  filter (fun r => negb (is_list r)) rs = filter is_slice rs.
+Lemma point_len P sh rs d ii :
+  rs_ok sh rs = true -> length d = prodn sh -> lists_len P rs = true -> ii < P ->
+  length (oslice sh (pointify ii rs) d) = prodn (point_shape rs).
 Proof.
-  unfold nints. induction rs as [|r rs IH]; simpl; [reflexivity|].
-  destruct r; simpl; intros H; try discriminate; rewrite IH by exact H; reflexivity.
+  intros Hok Hd Hl Hi. rewrite oslice_length; [apply pointify_prod| |exact Hd].
+  apply pointify_ok with (P := P); assumption.
 Qed.
 
-(* first list at axis 0, no int selector on the variable, no masked cell: the point loop is
-   the pointwise selection *)
-Lemma zip_var_axis0 (um um0 : A -> A) P n sh l rs d :
-  let rs0 := RList l :: rs in
-  rs_ok (n :: sh) rs0 = true -> length d = prodn (n :: sh) -> lists_len P rs0 = true ->
-  dom_zip rs0 = true -> (forall x, In x d -> um x = x /\ um0 x = x) ->
-  impl_zip_var um um0 P (n :: sh) rs0 d (zip_shape P rs0) = Some (zslice P (n :: sh) rs0 d).
+Lemma concat_rec_ext a : forall ps P (pts pts' : nat -> list A),
+  (forall ii, ii < P -> pts ii = pts' ii) -> concat_rec a ps P pts = concat_rec a ps P pts'.
 Proof.
-  intros rs0 Hok Hd Hl Hdom Hum.
-  assert (Hn : nints rs0 = 0) by (apply Nat.eqb_eq; exact Hdom).
-  assert (Hn' : nints rs = 0) by exact Hn.
-  unfold impl_zip_var, zip_shape, point_shape. rewrite Hn. simpl first_list_pos.
-  change (0 <? 0) with false. cbv iota.
-  change (length (map rcount (filter is_slice rs0)) <? 0) with false. cbv iota.
-  change (filter is_slice rs0) with (filter is_slice rs).
-  change (filter (fun r => negb (is_list r)) rs0) with (filter (fun r => negb (is_list r)) rs).
-  rewrite (nints0_filters rs Hn').
-  set (ps := map rcount (filter is_slice rs)).
-  assert (Hpt : forall ii, ii < P -> length (oslice (n :: sh) (pointify ii rs0) d) = prodn ps).
-  { intros ii Hii. rewrite oslice_length; [apply (pointify_prod ii rs0)| |exact Hd].
-    apply pointify_ok with (P := P); assumption. }
-  assert (Hc : concat_axis 0 P (insert_at 0 1 ps) (fun ii => oslice (n :: sh) (pointify ii rs0) d)
-               = zslice P (n :: sh) rs0 d).
-  { unfold concat_axis, insert_at. simpl firstn. simpl skipn. simpl prodn at 1. simpl seq at 1.
-    simpl flat_map at 1. rewrite app_nil_r. simpl zslice.
-    apply flat_map_ext_in. intros ii Hii. apply in_seq in Hii.
-    apply chunk_0_all. apply Hpt. lia. }
-  rewrite Hc.
-  rewrite map_fixed.
-  - apply assign_same_cells; [|reflexivity].
-    unfold insert_at. simpl. rewrite flat_map_length_const with (k := prodn ps); [now rewrite seq_length|].
-    intros ii Hii. apply in_seq in Hii. apply Hpt. lia.
-  - intros x Hx. unfold rs0 in Hx. cbn [zslice] in Hx. apply in_flat_map in Hx as [ii [_ Hx]]. apply oslice_incl in Hx.
-    destruct (Hum x Hx). destruct ps; assumption.
+  induction a as [|a IH]; intros ps P pts pts' H.
+  - destruct ps; simpl; apply flat_map_ext_in; intros ii Hi; apply in_seq in Hi; apply H; lia.
+  - destruct ps as [|n ps]; simpl.
+    + apply flat_map_ext_in; intros ii Hi; apply in_seq in Hi; apply H; lia.
+    + apply flat_map_ext. intros j. apply IH. intros ii Hi. now rewrite H.
+Qed.
+
+(* the point loop (expand_dims / concatenate at pointax) is the pointwise selection, for the
+   first list at ANY axis and with int selectors anywhere *)
+Lemma zip_cells P sh : forall rs d,
+  rs_ok sh rs = true -> length d = prodn sh -> lists_len P rs = true -> has_list rs = true ->
+  concat_rec (slices_before_list rs) (point_shape rs) P (fun ii => oslice sh (pointify ii rs) d)
+  = zslice P sh rs d.
+Proof.
+  induction sh as [|n sh IH]; intros [|r rs] d Hok Hd Hl Hh; simpl in Hok; try discriminate.
+  apply andb_true_iff in Hok as [Hr Hok].
+  assert (Hl' : lists_len P rs = true) by (simpl in Hl; apply andb_true_iff in Hl; tauto).
+  assert (Hin : forall i, In i (rindices r) -> i < n) by (intros i; apply rsel_ok_lt; exact Hr).
+  assert (Hch : forall i, i < n -> length (chunk (prodn sh) i d) = prodn sh).
+  { intros i Hi. apply chunk_length. simpl in Hd. rewrite Hd. nia. }
+  destruct r as [i|l|l].
+  - (* int: nothing changes but the block we are in *)
+    assert (Hh' : has_list rs = true) by exact Hh.
+    cbn [slices_before_list is_list is_slice point_shape filter zslice rindices flat_map].
+    change (map rcount (filter is_slice rs)) with (point_shape rs).
+    rewrite app_nil_r, <- (IH rs (chunk (prodn sh) i d)); try assumption.
+    + apply concat_rec_ext. intros ii _. simpl. now rewrite app_nil_r.
+    + apply Hch. apply Hin. now left.
+  - (* slice: one more leading axis *)
+    assert (Hh' : has_list rs = true) by exact Hh.
+    cbn [slices_before_list is_list is_slice point_shape filter map rcount rindices zslice Nat.add].
+    change (map (fun r => length (rindices r)) (filter is_slice rs)) with (point_shape rs).
+    cbn [concat_rec].
+    rewrite flat_map_ext_in with
+      (g := fun j => zslice P sh rs (chunk (prodn sh) (nth j l 0) d)).
+    + apply (flat_map_seq_nth (fun i => zslice P sh rs (chunk (prodn sh) i d)) 0 l).
+    + intros j Hj. apply in_seq in Hj. unfold rcount in Hj. simpl in Hj.
+      change (map rcount (filter is_slice rs)) with (point_shape rs).
+      assert (Hnj : nth j l 0 < n) by (apply Hin; simpl; apply nth_In; lia).
+      rewrite <- (IH rs (chunk (prodn sh) (nth j l 0) d)); try assumption; [|apply Hch; exact Hnj].
+      apply concat_rec_ext. intros ii Hii.
+      change (pointify ii (RSlice l :: rs)) with (RSlice l :: pointify ii rs).
+      cbn [oslice rindices].
+      apply (chunk_flat_map_const (fun i => oslice sh (pointify ii rs) (chunk (prodn sh) i d))); [|lia].
+      intros i Hi. apply point_len with (P := P); try assumption. apply Hch. apply Hin. exact Hi.
+  - (* first list: the points follow each other *)
+    cbn [slices_before_list is_list]. destruct (point_shape (RList l :: rs)); reflexivity.
+Qed.
+
+Lemma zslice_length P sh : forall rs d,
+  rs_ok sh rs = true -> length d = prodn sh -> lists_len P rs = true -> has_list rs = true ->
+  length (zslice P sh rs d) = P * prodn (point_shape rs).
+Proof.
+  induction sh as [|n sh IH]; intros [|r rs] d Hok Hd Hl Hh; try discriminate.
+  pose proof Hok as Hok0. simpl in Hok. apply andb_true_iff in Hok as [Hr Hok].
+  assert (Hl' : lists_len P rs = true) by (simpl in Hl; apply andb_true_iff in Hl; tauto).
+  assert (Hin : forall i, In i (rindices r) -> i < n) by (intros i; apply rsel_ok_lt; exact Hr).
+  assert (Hch : forall i, i < n -> length (chunk (prodn sh) i d) = prodn sh).
+  { intros i Hi. apply chunk_length. simpl in Hd. rewrite Hd. nia. }
+  destruct r as [i|l|l].
+  - cbn [zslice rindices flat_map]. rewrite app_nil_r.
+    rewrite IH; try assumption; [reflexivity|apply Hch; apply Hin; now left].
+  - cbn [zslice rindices].
+    rewrite flat_map_length_const with (k := P * prodn (point_shape rs)).
+    + change (prodn (point_shape (RSlice l :: rs))) with (length l * prodn (point_shape rs)). ring.
+    + intros i Hi. apply IH; try assumption. apply Hch. apply Hin. exact Hi.
+  - cbn [zslice].
+    rewrite flat_map_length_const with (k := prodn (point_shape (RList l :: rs))); [now rewrite seq_length|].
+    intros ii Hii. apply in_seq in Hii. apply point_len with (P := P); try assumption. lia.
+Qed.
+
+Lemma prodn_insert k x l : prodn (insert_at k x l) = x * prodn l.
+Proof.
+  unfold insert_at. rewrite <- (firstn_skipn k l) at 3. rewrite !prodn_app. simpl. ring.
+Qed.
+
+Lemma prodn_nonlist rs :
+  prodn (map rcount (filter (fun r => negb (is_list r)) rs)) = prodn (point_shape rs).
+Proof.
+  unfold point_shape. induction rs as [|r rs IH]; simpl; [reflexivity|].
+  destruct r; simpl; rewrite IH; unfold rcount; simpl; lia.
+Qed.
+
+(* FULL: zipped variable, any position of the first list, ints allowed, any cells *)
+Lemma zip_var P sh rs d :
+  rs_ok sh rs = true -> length d = prodn sh -> lists_len P rs = true -> has_list rs = true ->
+  impl_zip_var P sh rs d (zip_shape P rs) = Some (zslice P sh rs d).
+Proof.
+  intros Hok Hd Hl Hh. unfold impl_zip_var. rewrite zip_cells by assumption.
+  apply assign_same_cells.
+  - rewrite zslice_length by assumption. symmetry. apply prodn_insert.
+  - unfold zip_shape. rewrite !prodn_insert, prodn_nonlist. reflexivity.
 Qed.
 
 End P.
